@@ -484,7 +484,7 @@ def _propagate_aliases(fn):
                 parents[c_] = p_
         for n in ast.walk(fn):
             if isinstance(n, ast.Assign) and len(n.targets) == 1 and isinstance(n.targets[0], ast.Name) and _pure_path(n.value) \
-                    and not isinstance(n.value, ast.Constant) and stores.get(n.targets[0].id) == 1 and n.targets[0].id not in params:
+                    and stores.get(n.targets[0].id) == 1 and n.targets[0].id not in params:
                 names = {x.id for x in ast.walk(n.value) if isinstance(x, ast.Name)}
                 if n.targets[0].id in names or isinstance(n.value, ast.Name) and n.value.id == "self":
                     continue
